@@ -10,11 +10,42 @@ TRUSTED_COMMON = [
 
 BUILDERS = {
     "verifh": lambda: V.build_harness("verifh"),
+    "verifs": V.build_sched_harness,
 }
 
 EXTRA_STAGES = {}
 
+SUB_STAGES = [
+    {"kind": "cases", "name": "sequential", "driver": "SUBSEQ", "n": {"quick": 60, "thorough": 600}},
+    {"kind": "cases", "name": "schedules", "driver": "SUB", "binary": "verifs", "n": {"quick": 60, "thorough": 600}},
+]
+SUB_RULE = ("sequential: method sequences on a real LocalSubscriber (buffer 1000) with 999/1000/1001/1500 pending updates live, from history, "
+            "queued before go-live and with a consumer, plus random sequences, compared call by call with the transition system run under the "
+            "sequential schedule; schedules: 2-3 goroutines each running 1-3 of Dispatch(live/history)/Ready/Disconnect on one subscriber whose "
+            "sources are instrumented at check time (yield before every statement, buffer capacity 2): every schedule with <= 2 preemptions "
+            "(<= 400 runs per scenario, 3 / 5000 in thorough) plus random schedules; each distinct outcome (results, delivered ids, closed, panic, "
+            "all-blocked) must be an outcome of the atomic-method model and satisfy the spec predicate. non-trivial = scenario with more than one distinct outcome / "
+            "sequential history with a refused dispatch or a closed channel")
+SUB_TRUST = ["sync.RWMutex, sync/atomic and channels behave as the Go memory model says (DRF-SC); the model's steps are one shared access each",
+             "the atomic-method model (Model/SubCases.v) used to predict outcome sets is an over-approximation stated, not proved, to contain the "
+             "transition system's outcomes; the theorems are about the fine-grained transition system",
+             "yieldify rewriter + cooperative scheduler (harness/cmd/yieldify, harness/overlay/zz_vsched.go.txt)"]
+
 PROPS = {
+    "C13": {
+        "binaries": ["verifh", "verifs"],
+        "stages": SUB_STAGES,
+        "rule": SUB_RULE,
+        "trusted": SUB_TRUST + ["wall-clock time is not modelled: 'bounded' means a bounded number of steps of the publisher plus the critical sections ahead of it"],
+        "assumptions": ["Ready is called once per subscriber (AddSubscriber does)"],
+    },
+    "C14": {
+        "binaries": ["verifh", "verifs"],
+        "stages": SUB_STAGES,
+        "rule": SUB_RULE,
+        "trusted": SUB_TRUST + ["skipfilter / roaring internals and the transport locks are not in this transition system (see C05, and the -race stress stage when built)"],
+        "assumptions": ["Ready is called once per subscriber (AddSubscriber does)"],
+    },
     "C02": {
         "stages": [{"kind": "cases", "name": "publish", "driver": "C02", "n": {"quick": 1, "thorough": 1}}],
         "exhaustive": True,
